@@ -117,3 +117,19 @@ pub fn stub_send<T>(_s: &UnboundedSender<T>, message: T) -> std::result::Result<
     Ok(())
 }
 
+
+// ---------------------------------------------------------------------------------------------------------
+// Filesystem stubs for `config::validate_directory` (existence / create / write-permission probe): the directory
+// check is not the subject of any claimed property; every call "succeeds" so the numeric checks after it are reached.
+pub fn stub_path_exists(_p: &std::path::Path) -> bool {
+    true
+}
+pub fn stub_fs_write<P: AsRef<std::path::Path>, C: AsRef<[u8]>>(_p: P, _c: C) -> std::io::Result<()> {
+    Ok(())
+}
+pub fn stub_fs_remove_file<P: AsRef<std::path::Path>>(_p: P) -> std::io::Result<()> {
+    Ok(())
+}
+pub fn stub_fs_create_dir_all<P: AsRef<std::path::Path>>(_p: P) -> std::io::Result<()> {
+    Ok(())
+}
